@@ -15,7 +15,7 @@ CHECKS.update({
          "Every subset of size 1..t-1 of every (n,t) up to the bound, with honest and lied thresholds in key packages and public key package, through sign / aggregate (3 modes) / reconstruct / hand-assembled signatures, the same drive through the re-randomized entry points (sign_with_randomizer_seed, deprecated sign, aggregate, aggregate_custom) and on key material after dealer refresh / distributed refresh / repair among exactly t and t+1 holders; exact Shamir secrecy (every secret equally often for every (t-1)-subset of shares) over ALL polynomials on GF(5), GF(7), GF(11).",
          "Unforgeability against arbitrary algorithms is a cryptographic assumption and is not decided; what is decided is the refusals, the honest-algorithm attack surface and exact secrecy on the tiny field.", "DESIGN 4 C03"),
  "C04": ("fault_enumeration", "exhaustive fault enumeration (every cheater subset x wrong-share kind x detection mode) with an exact reference predicate; every error vector on the tiny field",
-         "Every non-empty cheater subset of every signer set, seven wrong-share kinds incl. cross-session and cancelling ones, three detection modes plus stand-alone share verification, Taproot in all four (key parity, R parity) branches; oracle is exact (e_i computed by the harness, numeric identifier order computed independently). On GF(7)/GF(11)/GF(13) EVERY error vector is run.",
+         "Every non-empty cheater subset of every signer set, seven wrong-share kinds incl. cross-session and cancelling ones, three detection modes plus stand-alone share verification, Taproot in all four (key parity, R parity) branches; the same oracle on key material after dealer refresh (unsorted list) / distributed refresh / repair, with transported and legacy public key packages, through the re-randomized aggregate and through the Taproot tweak wrappers with both key parities; oracle is exact (e_i computed by the harness, numeric identifier order computed independently). On GF(7)/GF(11)/GF(13) EVERY error vector is run.",
          "Wrong-share values on the real curves are structured kinds, not all values; all values only on the tiny field.", "DESIGN 4 C04"),
  "C06": ("exploration", "bounded-exhaustive shape enumeration + exhaustive single-coordinate tamper enumeration; exhaustive tiny-field polynomials",
          "Every (n,t) up to the bound x 5 identifier kinds x generate/split: every share checked by independent commitment evaluation and Lagrange interpolation, EVERY t-subset reconstructs, every (t-1)-subset does not, EVERY single-coordinate tampering (value, identifier, each commitment entry, truncation, extension) of every share is rejected; u16 boundary and duplicate/mis-sized identifier lists refused; custom identifier lists whose members differ in ONE bit, for every bit position; n=65535 with default identifiers; all polynomials on GF(5)/GF(7)/GF(11).",
@@ -26,12 +26,12 @@ CHECKS.update({
 })
 CHECKS.update({
  "C10": ("model_checking", "explicit exploration of the refresh operation tree on the real code (every remaining set, both procedures, depth-bounded, no state merging) with invariants on every node",
-         "Nodes are groups holding real key material, edges are the real dealer and distributed refresh procedures for EVERY remaining set R (|R|>=t); every path to the depth bound is executed. On every node: key unchanged, every package re-linked (verifying share = G*share = public entry), every t-subset signs (independent verifier), every strict old/new mix and every set with a removed member fails, and the threshold-change / unknown-identifier / non-zero-constant refusals refuse in both procedures.",
+         "Nodes are groups holding real key material, edges are the real dealer and distributed refresh procedures for EVERY remaining set R (|R|>=t); every path to the depth bound is executed. On every node: key unchanged, every package re-linked (verifying share = G*share = public entry), every t-subset signs (independent verifier), every strict old/new mix and every set with a removed member fails, and the threshold-change / unknown-identifier / non-zero-constant refusals refuse in both procedures (incl. each single member deviating as an attacker, and a refreshing polynomial of 65536 + t coefficients).",
          "Refresh polynomials are seeded streams; a full threshold of OLD shares still signs (documented, not asserted to fail).", "DESIGN 4 C10"),
 })
 CHECKS.update({
  "C12": ("exploration", "exhaustive single-deviation byte-space exploration of every valid encoding (E4) with a re-encode oracle, plus explicit must-reject strings and header enumeration",
-         "For every primitive decoder x 3 decoding paths (own deserialize, serde+postcard, serde+JSON) x several base encodings: every single-byte substitution (hence every bit flip and every tag byte), every length 0..2L; accepted => re-encoding reproduces the input. Explicit negatives (zero, q, q+1, identity spellings, all 8 / 4 torsion points, mixed-order points, x>=p, off-curve x, every SEC1 tag), every version byte, every deviation of the 4-byte ciphersuite id, other suites' ids and encodings, JSON header variants; value round trips of ~40 wire types x shapes x identifier kinds in postcard and JSON incl. the pre-3.0 public key package.",
+         "For every primitive decoder x 3 decoding paths (own deserialize, serde+postcard, serde+JSON) x several base encodings: every single-byte substitution (hence every bit flip and every tag byte), every length 0..2L; accepted => re-encoding reproduces the input. Explicit negatives (zero, q, q+1, identity spellings, all 8 / 4 torsion points, mixed-order points, x>=p, off-curve x, every SEC1 tag), every version byte, every deviation of the 4-byte ciphersuite id, other suites' ids and encodings, JSON header variants; every primitive in another plausible format or framing (SEC1 uncompressed / hybrid / x-only, R with or without tag, a byte appended / prepended / dropped, encoded twice); value round trips of ~40 wire types x shapes x identifier kinds in postcard and JSON incl. the pre-3.0 public key package.",
          "Byte strings two or more deviations away from a valid encoding are outside the bound (thorough adds all 2-bit flips for <=33-byte primitives); postcard trailing bytes / non-minimal varints and JSON hex case are the serde back ends' framing and are not alarmed.", "DESIGN 4 C12"),
 })
 CHECKS.update({
@@ -39,7 +39,7 @@ CHECKS.update({
          "Every (n,t) up to the bound x 5 identifier kinds x seeds through each crate's three DKG parts (and the tiny field): all participants hold the identical public package; every key package is consistent; group key = sum of constant-term commitments (Taproot: BIP-341 key-path-only tweak recomputed with libsecp256k1 add_tweak); every entry = summed commitment polynomial evaluated independently; EVERY t-subset interpolates to the key and signs under an independent verifier; a 256-of-257 run with round-one packages over the wire.",
          "Per-participant polynomials are seeded streams.", "DESIGN 4 C07"),
  "C08": ("fault_enumeration", "exhaustive fault enumeration over every (receiver, sender) pair x fault kind x field, against two concurrent honest runs",
-         "Every ordered (receiver, sender) pair x ~30 fault kinds on both DKG rounds (both proof components, proof for every other identifier / other run, every commitment coefficient, lengths t-1/t+1 with and without valid proof, own-identifier filing in three forms, missing/surplus, misrouted / cross-run / cross-sender shares, consistently restricted or extended maps). The first consuming step must be Err, earlier steps must equal the honest run, culprits must be a subset of {sender} and exactly {sender} for proof and share faults.",
+         "Every ordered (receiver, sender) pair x ~30 fault kinds on both DKG rounds (both proof components, proof for every other identifier / other run, every commitment coefficient, lengths t-1/t+1 with and without valid proof, own-identifier filing in three forms and as a surplus entry, missing/surplus, misrouted / cross-run / cross-sender shares, consistently restricted or extended maps, a proof for the negated nonce commitment, a commitment of 65536 + t coefficients with a valid proof and shares on it). The first consuming step must be Err, earlier steps must equal the honest run, culprits must be a subset of {sender} and exactly {sender} for proof and share faults.",
          "'Attributable' is read as 'the error carries a culprit' (DESIGN 3.8 rule 4).", "DESIGN 4 C08"),
 })
 CHECKS.update({
@@ -47,12 +47,12 @@ CHECKS.update({
          "Two concurrent sessions A,B of the same signers: every A/B filling of every commitment slot x message (packages), every Sign(i,P,nonces_X), every VerifyShare(P,i,z) for z in the universe of all shares signer i can be made to produce, every Aggregate(P,zvec) over the full product of universes; acceptance must equal 'produced for exactly this package'. Plus every single-field substitution and the signer-side refusals incl. slot permutations and identity commitments in every slot.",
          "Two sessions, |S|<=3; a permutation of honest shares among slots leaves the sum valid and is not asserted to fail (C04 allows it).", "DESIGN 4 C05"),
  "C09": ("model_checking", "explicit exploration of all delivery histories of two concurrent honest DKG runs on the real part2/part3 against a reference predicate",
-         "n in {3,4}, every (t_A,t_B): per participant and own run every {A,B,absent} assignment of every round-one slot and, for each accepted one, every ({A,B} x addressee | absent) assignment of every round-two slot; part2/part3 acceptance must equal the independently computed predicate, accepted histories must yield internally consistent key material; for every common round-one set all participants complete with identical public packages and every t-subset signs.",
+         "n in {3,4}, every (t_A,t_B): per participant and own run every {A,B,absent} assignment of every round-one slot and, for each accepted one, every ({A,B} x addressee | absent) assignment of every round-two slot; part2/part3 acceptance must equal the independently computed predicate, accepted histories must yield internally consistent key material, and the ciphersuite crate's part2 / part3 must end exactly like the frost-core generics on every delivery; for every common round-one set all participants complete with identical public packages and every t-subset signs.",
          "Honest senders only (malformed contributions are C08); the decomposition over participants is checked on the code in every run.", "DESIGN 4 C09"),
 })
 CHECKS.update({
  "C13": ("model_checking", "crash-point (save/drop/restore) mask enumeration over five protocols on the real code; byte-equality with the uninterrupted execution",
-         "DKG, distributed refresh, dealer refresh, preprocessed signing and repair, each followed by a signing run: at every round boundary of every participant (secret packages, key/public packages, nonces, nonce batches) and for every message in transit the value may be encoded, dropped and decoded - through the types' own serialize/deserialize, JSON, or the component-wise custom-serialization route. Every mask with <= 2 crashes and the all-ones mask (thorough: every mask over the secret-state boundaries) must give byte-identical outputs at every later step.",
+         "DKG, distributed refresh, dealer refresh, preprocessed signing and repair, each followed by a signing run: at every round boundary of every participant (secret packages, key/public packages, nonces, nonce batches) and for every message in transit the value may be encoded, dropped and decoded - through the types' own serialize/deserialize, JSON, or the component-wise custom-serialization route. Every mask with <= 2 crashes and the all-ones mask (thorough: every mask over the secret-state boundaries) must give byte-identical outputs at every later step; saved state must carry version 0 and the suite identifier computed independently; part two of 72-of-72 and 260-of-260 runs (secret packages of several / more than 16 kilobytes).",
          "Random sources are scripted per (participant, step) so both runs draw the same bytes.", "DESIGN 4 C13"),
  "C14": ("fault_enumeration", "exhaustive single-deviation byte sweeps of every decoder and full-product hostile-input menus of every protocol entry point under catch_unwind with overflow checks and debug assertions",
          "Decoders: every wire type x 3 paths x suite from a valid encoding: every truncation, extension, per-position substitutions and injected extreme length varints, degenerate inputs, every other suite's encodings into every decoder. Protocol steps: 14 entry-point groups with the full product of per-argument menus of well-typed hostile values (empty / huge / duplicated / inconsistent maps and lists, identity elements, zero scalars, empty and over-long commitments incl. u16-wrapping lengths, thresholds None/0/1/65535, 1 MiB messages). No call may unwind or hang.",
@@ -68,7 +68,7 @@ CHECKS.update({
 })
 CHECKS.update({
  "C17": ("exploration", "bounded-exhaustive shape enumeration of re-randomized sessions with independent randomizer hash; exhaustive seed-byte / commitment tamper enumeration; C04 fault menu through the re-randomized aggregate",
-         "Every signer subset of every (n,t) up to the bound x randomizer sources (seeded, constant seeds, explicit 0/1/q-1): regenerated = coordinator parameters, signature valid under the randomized and (randomizer != 0) invalid under the original key, randomizer = independently computed hash(seed || independently encoded commitments); every single-byte seed change and every commitment replacement / set change changes the randomizer; a participant with tampered seed or package is exactly the culprit; every cheater subset x 4 kinds x 3 modes and every below-threshold subset through frost-rerandomized's aggregate.",
+         "Every signer subset of every (n,t) up to the bound x randomizer sources (seeded, constant seeds, explicit 0/1/q-1): regenerated = coordinator parameters, signature valid under the randomized and (randomizer != 0) invalid under the original key, randomizer = independently computed hash(seed || independently encoded commitments); every single-byte seed change and every commitment replacement / set change changes the randomizer; a participant with tampered seed or package is exactly the culprit; every cheater subset x 4 kinds x 3 modes and every below-threshold subset through frost-rerandomized's aggregate; every session repeated with the legacy (threshold-less) public key package, packages after binary / JSON transport, cloned parameters and parameters rebuilt from the transported randomizer - identical signature required.",
          "Seeds are seeded streams plus constants.", "DESIGN 4 C17"),
  "C18": ("exploration", "branch-forcing enumeration: all 8 (internal, output, R) Y-parity combinations forced by seed search for every shape / subset / script-tree root, judged by libsecp256k1",
          "(n,t) x dealer/DKG x every signer subset x 6 root variants x messages, each in ALL parity combinations (reported per combination): libsecp256k1 verify_schnorr under the output key that libsecp256k1 add_tweak derives with an independently computed TapTweak hash; rejection under the untweaked key; absent root == empty root; honest shares verify; the C04 cheater menu (every cheater subset) in every parity combination; DKG key-path-only tweak; single-signer signing for both key parities.",
